@@ -4,9 +4,9 @@
    Every <op> is replayed on the model executor it names; the model's state is then rendered in
    the format of the real dump and compared as a string (refcounts, freed, free, pending_free,
    constant cache, bytes of every live slot, and the full value skeleton of every process).
-   The model is run as the code is found; if that disagrees, as the code is after
-   hooks/fix_F9.patch and/or hooks/fix_F46.patch (so the check survives the repairs landing).
-   stdout: (agree <ops> unfixed|f9fixed|f46fixed|f9f46fixed) | (disagree (op k) <op> (model ..) (real ..)) | (empty) *)
+   The model is run as the code is committed (fix_F9 and fix_F46 applied); if that disagrees, the
+   pre-repair variants are tried so that a regression is named rather than just reported.
+   stdout: (agree <ops> current|f9-regressed|f46-regressed|f9-f46-regressed) | (disagree (op k) <op> (model ..) (real ..)) | (empty) *)
 open Heap_model
 
 let rec nat_of_int n = if n <= 0 then O else S (nat_of_int (n - 1))
@@ -260,8 +260,9 @@ let () =
             match Sexp.parse line with
             | Sexp.List (Sexp.Atom "trace" :: []) -> "(empty)"
             | Sexp.List (Sexp.Atom "trace" :: items) ->
-              (match replay false false items with
-               | Ok n -> Printf.sprintf "(agree %d unfixed)" n
+              (* the code as committed: fix_F9 and fix_F46 applied *)
+              (match replay true true items with
+               | Ok n -> Printf.sprintf "(agree %d current)" n
                | Error m1 ->
                  let rec try_modes = function
                    | [] -> "(disagree " ^ m1 ^ ")"
@@ -269,7 +270,7 @@ let () =
                      (match replay fx f46 items with
                       | Ok n -> Printf.sprintf "(agree %d %s)" n name
                       | Error _ -> try_modes rest) in
-                 try_modes [(true, false, "f9fixed"); (false, true, "f46fixed"); (true, true, "f9f46fixed")])
+                 try_modes [(false, true, "f9-regressed"); (true, false, "f46-regressed"); (false, false, "f9-f46-regressed")])
             | _ -> "(bad-trace)"
           with Failure m -> "(driver-failure \"" ^ String.escaped m ^ "\")"
              | Not_found -> "(driver-failure not-found)" in
